@@ -88,6 +88,10 @@ def unterminated_is_reported(P, rep):
             acts = set(rules_C08.scan_step(table, mode, cls, 0, False))
             if not acts or any(a[0] != 'this' for a in acts):
                 quiet.append("%s while %s" % (cls.lower(), "searching the next arm" if mode == "EndIf" else "passing over the remaining arms"))
+    for cls in ("EndMacro", "EndM"):
+        acts = set(rules_C08.scan_step(table, "EndMacro", cls, 0, False))
+        if not acts or any(a[0] != 'this' for a in acts):
+            quiet.append("%s while collecting a macro body" % cls.lower())
     rep.ob("C15.chain-line|malformed", not quiet,
            "a malformed .else / .elif / .endif of the conditional being skipped is handed to the line parser in every mode" if not quiet else
            "a malformed line of the chain is passed over without a word (%s): `.if 1 / ... / .elif x == (3 / ... / .endif` builds" % "; ".join(quiet[:3]))
